@@ -16,7 +16,7 @@ use serde_json::json;
 pub const SPEC: PropSpec = PropSpec {
 	id: "C05",
 	level: "exploration",
-	rule: "case = (schema: payload-oriented record/bytes shapes or random; 0..300 conforming values; codec in {null, deflate, bzip2, snappy, xz, zstandard}; level in {default, 1, max, above max}; approx_block_size in {0, 1, 7, 100, 8191..8193, 32767..32769, 65536, default, random}; op pattern over {serialize, serialize_all, finish_block (also empty / twice), push_serialized}; payload compressibility chosen so that compressed block length lands below / at / above the encoders' 32 KiB start buffer and its doublings and decompressed length on multiples of 8 KiB); the file is read back from a slice, BufReader capacities {1, 2, 7, 64, 8191, 8192, 8193, ...} or an irregular chunked reader: exactly the written values in order, then end of stream (twice). distinct by hash(schema shape, file bytes, reader kind)",
+	rule: "half of the files are written to a sink that takes everything, the rest to one that accepts only part of each write (1, k, or random 1..64 bytes per call; with or without its own write_vectored). case = (schema: payload-oriented record/bytes shapes or random; 0..300 conforming values; codec in {null, deflate, bzip2, snappy, xz, zstandard}; level in {default, 1, max, above max}; approx_block_size in {0, 1, 7, 100, 8191..8193, 32767..32769, 65536, default, random}; op pattern over {serialize, serialize_all, finish_block (also empty / twice), push_serialized}; payload compressibility chosen so that compressed block length lands below / at / above the encoders' 32 KiB start buffer and its doublings and decompressed length on multiples of 8 KiB); the file is read back from a slice, BufReader capacities {1, 2, 7, 64, 8191, 8192, 8193, ...} or an irregular chunked reader: exactly the written values in order, then end of stream (twice). distinct by hash(schema shape, file bytes, reader kind)",
 	assumptions: &["the sync marker is fixed through the builder so that runs are reproducible"],
 	cases: (50_000_000, 4_000_000_000),
 	secs: (45, 900),
@@ -31,6 +31,7 @@ pub const SPEC: PropSpec = PropSpec {
 		"compressed_block_over_32KiB",
 		"compressed_block_over_64KiB",
 		"decompressed_block_multiple_of_8KiB",
+		"files_written_to_short_writing_sink",
 	],
 	run_case,
 	once: None,
@@ -178,6 +179,18 @@ pub fn pick_write_cfg(rng: &mut Rng) -> WriteCfg {
 		]),
 		sync: *b"0123456789abcdef",
 		user_meta: vec![],
+		sink_schedule: None,
+	}
+}
+
+/// sink behaviour for files written by C05 / C06: mostly a sink that takes everything, sometimes one that takes
+/// only part of each write (what must not change a single byte of the file)
+pub fn pick_sink_schedule(rng: &mut Rng) -> Option<(Vec<usize>, bool)> {
+	match rng.below(6) {
+		0 => Some((vec![1], rng.coin())),
+		1 => Some((vec![*rng.pick(&[2usize, 3, 7, 17, 4096])], rng.coin())),
+		2 => Some(((0..1 + rng.below(8)).map(|_| 1 + rng.below(64)).collect(), rng.coin())),
+		_ => None,
 	}
 }
 
@@ -193,6 +206,10 @@ pub fn run_case(ctx: &mut Ctx, case_seed: u64) {
 		}
 	};
 	let mut wc = pick_write_cfg(&mut rng);
+	wc.sink_schedule = pick_sink_schedule(&mut rng);
+	if wc.sink_schedule.is_some() {
+		ctx.count("files_written_to_short_writing_sink");
+	}
 	if let Some(a) = &mut wc.approx_block_size {
 		if rng.chance(1, 6) {
 			*a = rng.below(70_000) as u32;
@@ -201,7 +218,7 @@ pub fn run_case(ctx: &mut Ctx, case_seed: u64) {
 	let ops = op_pattern(&mut rng, vals.len());
 	let pres = Pres::canonical();
 	let describe = |extra: serde_json::Value| {
-		json!({"schema": rs.spell(None).compact(), "payload_shape": shape, "n_values": vals.len(), "codec": wc.codec.name(), "level": wc.level, "approx_block_size": wc.approx_block_size,
+		json!({"schema": rs.spell(None).compact(), "payload_shape": shape, "n_values": vals.len(), "codec": wc.codec.name(), "level": wc.level, "approx_block_size": wc.approx_block_size, "sink_schedule": format!("{:?}", wc.sink_schedule),
 			"ops": format!("{ops:?}").chars().take(600).collect::<String>(), "first_value": vals.first().map(|v| v.to_json()), "extra": extra})
 	};
 	let file = match write_file(&schema, &rs, &vals, &ops, &wc, &pres) {
